@@ -46,7 +46,7 @@ def plan(tier, seed):
 
 
 def mandatory_bins(tier):
-    return ["edit:" + e for e in EDIT_NAMES] + ["valid_accepted", "encrypted_component", "zero_components", "via_from_binary", "via_read_file"]
+    return ["edit:" + e for e in EDIT_NAMES] + ["valid_accepted", "encrypted_component", "zero_components", "via_from_binary", "via_read_file", "plain_component_with_other_enc_tag_value"]
 
 
 def finish(agg, tier):
@@ -123,6 +123,10 @@ def gen_valid(rng):
         ln = rng.choice((2, 5, 15, 18, 33))
         c.blob = rng.randbytes(ln - 1).replace(b"\0", b"\1") + b"\0"
         c.declared = min(c.declared, len(c.blob)) or 1
+    if case.comps and rng.random() < 0.35:
+        c = case.comps[rng.randrange(len(case.comps))]
+        if not c.encrypted and all(t != 0xC2 for t, _ in c.desc):
+            c.desc = c.desc[:3] + [(0xC2, rng.choice(G.ENC_VARIANTS))]
     for c in case.comps:
         # keep some room so that tag edits fit
         if len(c.desc_bytes()) > 200:
@@ -140,6 +144,8 @@ def run_file(ns, ctx, case, key, first=False):
         ctx.bin("zero_components")
     if any(c.encrypted for c in case.comps):
         ctx.bin("encrypted_component")
+    if any((not c.encrypted) and any(t == 0xC2 for t, _ in c.desc) for c in case.comps):
+        ctx.bin("plain_component_with_other_enc_tag_value")
     k = 0
     for name, rule, binary, rkey in E.edits_for(factory, ctx.rng):
         rp = {"case": case.to_json(), "key": key.hex(), "edit": name, "binary": binary.hex() if len(binary) < 3000 else None, "rkey": rkey.hex()}
